@@ -94,6 +94,7 @@ static void shape(struct wcmd *c, const char *name, int hm, int flags, int vp)
         c->hmask = (uint8_t)hm;
         c->only_test = flags & 1; c->disable = (flags >> 1) & 1; c->implicit = (flags >> 3) & 1;
         static const int prof[5][2] = {{-1, -1}, {CAT_VAR_ACCESS_READ_ONLY, -1}, {CAT_VAR_ACCESS_WRITE_ONLY, -1}, {CAT_VAR_ACCESS_READ_WRITE, -1}, {CAT_VAR_ACCESS_READ_ONLY, CAT_VAR_ACCESS_WRITE_ONLY}};
+        if (vp == 5) { c->var_ptr = 1; return; }
         for (int i = 0; i < 2; i++)
                 if (prof[vp][i] >= 0) {
                         struct wvar *v = &c->var[c->nvar++];
@@ -138,7 +139,7 @@ static int family_shapes(int pairs)
         int idx = 0;
         static const char *names[2] = {"+P", "+Q"};
         int8_t lst[] = {CAT_RETURN_STATE_PRINT_CMD_LIST_OK};
-        int nshapes = 16 * 16 * 5;
+        int nshapes = 16 * 16 * 6;
         for (int s1 = 0; s1 < nshapes; s1++) {
                 int hm1 = s1 % 16, fl1 = (s1 / 16) % 16, vp1 = s1 / 256;
                 if (!legal_shape(hm1, fl1, vp1)) continue;
